@@ -60,7 +60,7 @@ class Part:
 
     name = "part"
     #: number of processes the part is sharded over, by tier
-    shards = {QUICK: 8, THOROUGH: 16}
+    shards = {QUICK: 16, THOROUGH: 16}
     #: examples per shard, by tier
     examples = {QUICK: 200, THOROUGH: 2000}
     #: wall budget per shard in seconds (a budget hit truncates, it never fails)
@@ -130,6 +130,22 @@ def _case_size(case: t.Any) -> int:
         return len(repr(case))
 
 
+def _library_exception(e: BaseException) -> t.List[Violation]:
+    """An exception that escaped a harness call *from inside the library* (innermost frame in sansldap)
+    is reported as a violation bucket of its own; anything else is a harness error and re-raised."""
+    tb = e.__traceback__
+    last = None
+    while tb is not None:
+        last = tb
+        tb = tb.tb_next
+    fn = last.tb_frame.f_code.co_filename.replace(os.sep, "/") if last is not None else ""
+    if "/sansldap/" not in fn:
+        raise e
+    from .msgcheck import exc_site
+
+    return [Violation(f"library-exception:{exc_site(e)}", f"unexpected exception escaped a library call made by the harness: {e!r}")]
+
+
 def shard_seed(seed: int, shard: int) -> int:
     return seed * 1000 + shard
 
@@ -172,7 +188,10 @@ def run_shard(prop_id: str, part_name: str, tier: str, seed: int, shard: int, ns
             state["n"] += 1
             ctx._case = case
             ctx._marked = False
-            vs = part.check(case, ctx)
+            try:
+                vs = part.check(case, ctx)
+            except Exception as e:
+                vs = _library_exception(e)
             if ctx._marked:
                 if len(nt_samples) < 3:
                     nt_samples.append(part.sample(case))
@@ -254,7 +273,10 @@ def shrink_bucket(
             return
         ctx = Ctx(part_name)
         ctx._case = case
-        vs = part.check(case, ctx)
+        try:
+            vs = part.check(case, ctx)
+        except Exception as e:
+            vs = _library_exception(e)
         hit = [v for v in vs if v.key == key]
         if hit:
             best["case"] = case
